@@ -34,7 +34,7 @@ INVARIANTS = {
     "C04": ["G_HeadTruthful", "FencedTerm"],
     "C05": ["OneLeaderPerTerm", "NoTermAboveCoordinator"],
     "C07": ["G_DbIsLogPrefix", "G_DurableNotAhead"],
-    "C08": ["G_CommitLeHead", "G_AckedDurable"],
+    "C08": ["G_CommitLeHead", "G_AckedDurable", "G_Quiescent"],
 }
 
 
@@ -115,7 +115,7 @@ PROP_INVS = {
     "C04": ["HeadTruthful", "FencedTerm"],
     "C05": ["OneLeaderPerTerm", "NoTermAboveCoordinator"],
     "C07": ["DbIsLogPrefix", "DurableNotAheadOfLog"],
-    "C08": ["CommitLeHead", "AckedDurable"],
+    "C08": ["CommitLeHead", "AckedDurable", "QuiescentCommitted"],
 }
 
 
